@@ -3,6 +3,7 @@ package props
 import (
 	"fmt"
 	"net/url"
+	"slices"
 	"strings"
 	"testing"
 	"time"
@@ -34,7 +35,18 @@ func (tw *tokenWorld) pickExToken(ch *kernel.Chooser) *exToken {
 		return nil
 	}
 	t := &exToken{subject: g.subject}
-	switch x := ch.Int(12); {
+	x := ch.Int(12)
+	switch {
+	case tw.sameAgain:
+		x, tw.sameAgain = tw.lastX, false // the string that was presented before the clock moved, once more
+	case tw.pickedFocus:
+		// the clock was moved with regard to one of this grant's tokens: mostly that one is presented
+		if ch.Bool(3, 4) {
+			x = map[string]int{"access token": 0, "ID token": 6}[tw.focusWhat]
+		}
+		tw.lastX, tw.pickedFocus = x, false
+	}
+	switch {
 	case x < 4:
 		t.str, t.declared, t.kind = g.access, oidc.AccessTokenType, "access"
 		id, sub, jwt, ok := w.DecodeAccess(g.access)
@@ -102,12 +114,16 @@ func (tw *tokenWorld) pickExToken(ch *kernel.Chooser) *exToken {
 
 func (tw *tokenWorld) exchange(ch *kernel.Chooser) string {
 	w := tw.w
+	// the clock was just moved with regard to a token (to its end, or to shortly before it with a second use shortly
+	// after it to follow): these uses are meant to succeed if anything can, so a client that may exchange presents it
+	// with its right credentials, the second time the very same client
+	again, focused := tw.after != nil && tw.focusLeft == 0, tw.focusLeft > 0
 	subj := tw.pickExToken(ch)
 	if subj == nil {
 		return "exchange: no subject token"
 	}
 	var actor *exToken
-	if ch.Bool(1, 3) {
+	if ch.Bool(1, 3) && !again && !focused {
 		actor = tw.pickExToken(ch)
 	}
 	caller := honestClients[ch.Int(len(honestClients))]
@@ -116,6 +132,23 @@ func (tw *tokenWorld) exchange(ch *kernel.Chooser) string {
 		p = rightPresentation(w, caller)
 	}
 	requested := []string{"", string(oidc.AccessTokenType), string(oidc.RefreshTokenType), string(oidc.IDTokenType), string(oidc.JWTTokenType), "urn:example:unknown"}[ch.Int(6)]
+	if again || focused {
+		var able []string
+		for _, id := range honestClients {
+			if c := w.Store.Clients[id]; usableClient(w, id) && c.HasGrant(oidc.GrantTypeTokenExchange) && !c.Public() {
+				able = append(able, id)
+			}
+		}
+		if len(able) > 0 {
+			caller = able[ch.Int(len(able))]
+			if again && slices.Contains(able, tw.lastCaller) {
+				caller = tw.lastCaller
+			}
+			tw.lastCaller = caller
+			p = rightPresentation(w, caller)
+			requested = []string{"", string(oidc.AccessTokenType)}[ch.Int(2)]
+		}
+	}
 	form := url.Values{"grant_type": {string(oidc.GrantTypeTokenExchange)}, "subject_token": {subj.str}, "subject_token_type": {string(subj.declared)}}
 	if requested != "" {
 		form.Set("requested_token_type", requested)
@@ -315,6 +348,9 @@ func RunC15(t *testing.T, spec kernel.Spec) *kernel.Outcome {
 			tw.step = i
 			if i < 3 {
 				return tw.obtain(ch)
+			}
+			if (tw.focusLeft > 0 || tw.after != nil) && ch.Bool(4, 5) {
+				return tw.exchange(ch) // the token the clock was moved for is presented next
 			}
 			switch x := ch.Int(20); {
 			case x < 3:
